@@ -83,8 +83,12 @@ func zzC19AbsAll(hs []zzC19Hash) (as []zzC19AbsHash) {
 // zzC19Svc is the mock lookup service: returns every hash of db under the
 // prefixes named in the question; records the questions.
 type zzC19Svc struct {
-	db   map[zzC19Hash]bool
-	reqs []*dns.Msg
+	db map[zzC19Hash]bool
+	// tempt are hashes the service lists only while they are in db; over-long
+	// malformed strings are derived from the others.
+	tempt []zzC19Hash
+	n     int
+	reqs  []*dns.Msg
 }
 
 func (s *zzC19Svc) Address() (addr string) { return "zzc19.mock" }
@@ -141,6 +145,28 @@ func (s *zzC19Svc) Exchange(req *dns.Msg) (resp *dns.Msg, err error) {
 	}
 	sort.Strings(strs)
 	strs = append(strs, "not a hash")
+	// Malformed strings that START with a complete unlisted hash: only a
+	// string EQUAL to a full hash is one.
+	for _, h := range s.tempt {
+		if s.db[h] || !want[hex.EncodeToString(h[:2])] {
+			continue
+		}
+
+		x := hex.EncodeToString(h[:])
+		s.n++
+		switch s.n % 5 {
+		case 0:
+			strs = append(strs, x+"00")
+		case 1:
+			strs = append(strs, x+" ")
+		case 2:
+			strs = append(strs, x+x)
+		case 3:
+			strs = append(strs, x+" malware")
+		default:
+			strs = append(strs, x[:32], x[32:])
+		}
+	}
 	resp.Answer = append(resp.Answer, &dns.TXT{
 		Hdr: dns.RR_Header{Name: req.Question[0].Name, Rrtype: dns.TypeTXT, Class: dns.ClassINET, Ttl: 60},
 		Txt: strs,
@@ -317,7 +343,7 @@ func TestZZVerifC19Front(t *testing.T) {
 			}
 		}
 
-		svc := &zzC19Svc{db: map[zzC19Hash]bool{}}
+		svc := &zzC19Svc{db: map[zzC19Hash]bool{}, tempt: listable}
 		for _, h := range listable {
 			if rng.Intn(3) == 0 {
 				svc.db[h] = true
